@@ -141,8 +141,43 @@ fn run_c01<D: Dg>(c: &C01) -> R {
     for (i, op) in c.ops.iter().enumerate() {
         apply_op(&mut d, &mut g, op, i)?;
         same_probed(&d, &g, &format!("after step {i} {op:?}"))?;
+        // the in-neighbours of the touched head (the matrix derives them from arcs())
+        let v = match *op {
+            Op::Add(_, v, _) | Op::Remove(_, v) | Op::Toggle(_, v) => v,
+        };
+        if g.verts.contains(&v) {
+            at("InNeighbors::in_neighbors");
+            ensure_eq!(
+                format!("after step {i} {op:?}: in_neighbors({v}) are the tails of arcs into {v}"),
+                g.inn(v),
+                d.in_neighbors(v).take(g.order() + 8).collect::<Vec<_>>()
+            );
+        }
     }
     Ok(())
+}
+
+/// short histories on every representation in which, for the bit matrix, bit
+/// 63 of a 64-bit block is the ONLY set bit of that block (order 9: arc
+/// (7, 0) alone; order 64: arc (0, 63) with no other arc out of 0)
+fn bit63_histories() -> Vec<(usize, Vec<Op>)> {
+    let mut out = Vec::new();
+    for order in [9usize, 11, 64, 65] {
+        let cells = bit63_arcs(order);
+        for &(u, v) in cells.iter().take(3).chain(cells.iter().rev().take(2)) {
+            out.push((order, vec![Op::Add(u, v, 1)]));
+            out.push((order, vec![Op::Toggle(u, v)]));
+            // the neighbouring bit is set and cleared again, bit 63 stays alone
+            let (a, b) = if v >= 2 && v - 1 != u { (u, v - 1) } else { ((u + 1) % order, v) };
+            if a != b {
+                out.push((order, vec![Op::Add(a, b, 1), Op::Add(u, v, 1), Op::Remove(a, b)]));
+            }
+            out.push((order, vec![Op::Add(u, v, 1), Op::Remove(u, v), Op::Add(u, v, 1)]));
+        }
+        // bit 63 alone in EVERY block that has one
+        out.push((order, cells.iter().map(|&(u, v)| Op::Add(u, v, 1)).collect()));
+    }
+    out
 }
 
 impl Case for C01 {
@@ -264,6 +299,23 @@ pub fn random_history(
 
 pub fn search_c01(seed: u64, ctx: &mut Ctx) -> Option<J> {
     let mut rng = Rng::new(seed);
+    for (order, ops) in bit63_histories() {
+        for repr in ALL_REPRS {
+            let toggles = ops.iter().any(|o| matches!(o, Op::Toggle(..)));
+            if toggles && repr != "AdjacencyMatrix" {
+                continue;
+            }
+            let c = C01 {
+                repr: repr.to_string(),
+                start: "empty".to_string(),
+                order,
+                ops: ops.clone(),
+            };
+            if let Some(f) = ctx.eval(&c) {
+                return Some(f);
+            }
+        }
+    }
     const ROUNDS: usize = 6000;
     for round in 0..ROUNDS {
         // tiny cases first: short histories on small orders
@@ -621,6 +673,34 @@ pub fn search_c02(seed: u64, ctx: &mut Ctx) -> Option<J> {
             };
             if let Some(f) = ctx.eval(&c) {
                 return Some(f);
+            }
+        }
+    }
+    // bit 63 of a 64-bit block of the bit matrix is the ONLY set bit of that
+    // block (order 9: arc (7, 0) alone; order 64: arc (0, 63) alone): arcs(),
+    // size(), in_neighbors and every other query, every representation
+    for order in [9usize, 11, 64, 65] {
+        let cells = bit63_arcs(order);
+        let mut inputs: Vec<Vec<(usize, usize)>> = cells.iter().map(|&a| vec![a]).collect();
+        inputs.truncate(4);
+        inputs.push(vec![*cells.last().unwrap()]);
+        inputs.push(cells.clone());
+        for arcs in inputs {
+            for repr in ALL_REPRS {
+                let mut g = G::new(order);
+                for &(u, v) in &arcs {
+                    let _ = g.arcs.insert((u, v), 1);
+                }
+                reweigh(&mut rng, &mut g, repr);
+                let walks = random_walks(&mut rng, &g);
+                let c = C02 {
+                    repr: repr.to_string(),
+                    g,
+                    walks,
+                };
+                if let Some(f) = ctx.eval(&c) {
+                    return Some(f);
+                }
             }
         }
     }
